@@ -79,6 +79,12 @@ func genRcptValue(c *core.Chooser, key string) string {
 	}
 	const alpha = "ABCDEFGHIJKLMNOPQRSTUVWXYZabcdefghijklmnopqrstuvwxyz0123456789-_./+"
 	var v string
+	if strings.Contains(key, "date") && c.Prob(1, 6) {
+		// dates in the other shapes the specifications know: 12 digits, the 16-character absolute and relative SMPP
+		// time formats, ISO-like; still "the characters between the colon and the next space"
+		d := string(c.Blob(15, "digits"))
+		return []string{d[:12], d + "+", d + "-", d + "R", d[:14], "20" + d[:12], d[:6] + "T" + d[6:12], d[:8] + "+0800"}[c.Intn(8)]
+	}
 	if c.Prob(1, 8) {
 		// a word the specifications define, in another letter case or with a look-alike letter: the value is still
 		// "the characters between the colon and the next space"
@@ -111,7 +117,7 @@ func genRcptValue(c *core.Chooser, key string) string {
 		}
 		v = string(b)
 	case 2: // runes whose lower/upper case forms have another length, Latin-1 octets
-		specials := []string{"İ", "K", "ß", "ǅ", "é", "\xe9", "Zürich", "ſ", "Å"}
+		specials := []string{"İ", "K", "ß", "ǅ", "é", "\xe9", "Zürich", "ſ", "Å", "\uff1a", "12\uff1a30", "\uff49\uff44\uff1a", "\u3000", "\ufe55", "\u2236", "\uff0e", "\u00a0"}
 		for len(v) < n {
 			if c.Bool() {
 				v += specials[c.Intn(len(specials))]
